@@ -51,4 +51,6 @@ func init() {
 	metas["C14"] = Meta{Rule: metas["C14"].Rule, Assumptions: metas["C14"].Assumptions, ExhaustivePart: "all slices over a 3-letter alphabet up to length 6"}
 	metas["C15"] = Meta{Rule: metas["C15"].Rule, Assumptions: metas["C15"].Assumptions, ExhaustivePart: "all slices over {0,1,2} up to length 7"}
 	metas["C08"] = Meta{Rule: metas["C08"].Rule, Assumptions: metas["C08"].Assumptions, ExhaustivePart: "all shapes 0..6 x 0..6 (the per-shape script samples rectangles and spans)"}
+	meta("C03", "case i = one PRNG-generated scenario: element type (int/string/struct), universe size 1..8, implementation pairing (maps|sync2 x maps|sync2), two construction histories of 0..40 calls each (constructors with duplicates, Add, Remove, Has, Len/Slice, Clone-and-swap), then the four binary operations in both directions (10%: argument is the receiver itself), two AddSet/RemoveSet calls and CartesianProduct; NON-TRIVIAL = A and B not both empty at the end; distinctness = hash of the full call sequence")
+	meta("C06", "even case = List scenario: 2..3 lists (zero value or New), 1..120 calls with element arguments from every handle ever issued (live here / live elsewhere / removed / never inserted); odd case = Ring scenario: 1..3 initial rings (NewRing(-1..7) or zero value), 1..80 calls; NON-TRIVIAL = List: a call received a non-member element or a list was pushed onto itself; Ring: at least one Link or Unlink; distinctness = hash of the call sequence")
 }
